@@ -465,6 +465,53 @@ def find_damaged_member(file_key, kinds=("image-number",)):
     return {"reproduced": False, "note": "damaged picture members: interface honoured"}
 
 
+def blip_stream():
+    """An OfficeArt `Pictures` stream with one record of every BLIP kind the readers know (PNG, JPEG, DIB, EMF, WMF)."""
+    from sharepoint2text.parsing.extractors.util import image_utils as iu
+    png = b"\x89PNG\r\n\x1a\n" + struct.pack(">I", 13) + b"IHDR" + struct.pack(">IIBBBBB", 2, 3, 8, 2, 0, 0, 0) + b"\0\0\0\0" + struct.pack(">I", 0) + b"IEND\xaeB`\x82"
+    jpeg = b"\xff\xd8\xff\xe0\x00\x10JFIF\x00\x01\x01\x00\x00\x01\x00\x01\x00\x00\xff\xc0\x00\x0b\x08\x00\x03\x00\x02\x01\x01\x11\x00\xff\xd9"
+    dib = struct.pack("<IiiHHIIiiII", 40, 2, 2, 1, 24, 0, 16, 2835, 2835, 0, 0) + bytes(range(16))
+    recs = [(iu.BLIP_TYPE_PNG, iu.BLIP_INSTANCE_PNG, png), (iu.BLIP_TYPE_JPEG, iu.BLIP_INSTANCE_JPEG, jpeg), (iu.BLIP_TYPE_DIB, 0x7A8, dib),
+            (iu.BLIP_TYPE_EMF, 0x3D4, b"\x01\x00\x00\x00emf-bytes" + bytes(30)), (iu.BLIP_TYPE_WMF, 0x216, b"\xd7\xcd\xc6\x9awmf-bytes" + bytes(30))]
+    out = b""
+    for typ, inst, payload in recs:
+        body = bytes(16) + b"\xff" + payload                       # 16-byte UID + tag, then the picture
+        out += struct.pack("<HHI", (inst << 4) | 0, typ, len(body)) + body
+    return out, [r[0] for r in recs]
+
+
+class FakeOle:
+    def __init__(self, streams):
+        self.streams = streams
+
+    def exists(self, name):
+        return name in self.streams
+
+    def openstream(self, name):
+        return io.BytesIO(self.streams[name])
+
+
+def find_blip(ob):
+    """Function-level replay of the OfficeArt picture readers on a hand-built stream covering every BLIP kind."""
+    data, kinds = blip_stream()
+    try:
+        if "ppt_extractor" in ob:
+            from sharepoint2text.parsing.extractors.ms_legacy import ppt_extractor as px
+            images, target = px._extract_images_from_pictures_stream(FakeOle({"Pictures": data})), "ppt_extractor.py::_extract_images_from_pictures_stream"
+        else:
+            return {"reproduced": False, "note": "no BLIP replay for this reader"}
+    except Exception as e:  # noqa
+        return {"reproduced": False, "note": f"BLIP replay failed: {type(e).__name__}: {e}"}
+    F = Failures()
+    for i, im in enumerate(images):
+        check_image(F, f"image[{i}]", im)
+    bad = [f for f in F if f["kind"] in ("image-size", "bytes", "image-number", "accessor-raises", "not-str")]
+    if bad:
+        return {"reproduced": True, "target": target, "inputs": {"pictures_stream_hex": data.hex(), "blip_record_types": [hex(k) for k in kinds]},
+                "expected": "every image: size_bytes == len(get_bytes()), number >= 1, accessors total", "observed": f"{bad[0]['where']}: {bad[0]['detail']}"}
+    return {"reproduced": False, "note": f"BLIP stream with {len(kinds)} record kinds: {len(images)} images honour the interface"}
+
+
 LENGTHS = ["9" * 400 + "cm", "9" * 400, "9" * 310 + "px", "1" + "0" * 330 + "mm", "1.5in", "", "x", "10", "1e400cm"]
 
 
@@ -573,17 +620,42 @@ PATHS = [None, "a.txt", "/abs/dir/y.docx", "rel/dir/z.tar.gz", "archive.zip!/inn
 
 
 def find_path():
+    """Path arguments: None, relative, absolute, unicode, archive!/member, non-existent -- and EXISTING ones in a scratch directory
+    (plain file, symlink whose target has another name / suffix / directory, a path through `sub/..`)."""
     from sharepoint2text.parsing.extractors import data_types as dt
     import pathlib
-    for p in PATHS + [pathlib.Path("rel/p.txt")]:
-        md = dt.FileMetadataInterface()
-        F = Failures()
-        ok, _ = call(F, "populate_from_path", md.populate_from_path, p)
-        check_file_metadata(F, "FileMetadataInterface", md, p)
-        if F:
-            return {"reproduced": True, "target": "data_types.py::FileMetadataInterface.populate_from_path", "inputs": {"path": str(p) if p is not None else None},
-                    "expected": "name / suffix / path / parent of the path argument, all None without path", "observed": F[0]["detail"]}
-    return {"reproduced": False, "note": f"{len(PATHS) + 1} path arguments: metadata derived from the path"}
+    import tempfile
+    with tempfile.TemporaryDirectory() as d:
+        real = os.path.realpath(d)
+        os.makedirs(os.path.join(real, "store", "deep"))
+        os.makedirs(os.path.join(real, "inbox"))
+        target = os.path.join(real, "store", "deep", "blob.dat")
+        open(target, "wb").write(b"x")
+        plain = os.path.join(real, "inbox", "plain.txt")
+        open(plain, "wb").write(b"x")
+        existing = [plain, os.path.join(real, "inbox", "..", "inbox", "plain.txt")]
+        try:
+            link = os.path.join(real, "inbox", "report.docx")
+            os.symlink(target, link)
+            existing.append(link)
+            dlink = os.path.join(real, "shortcut")
+            os.symlink(os.path.join(real, "store", "deep"), dlink)
+            existing.append(os.path.join(dlink, "blob.dat"))
+        except OSError:
+            pass
+        for p in PATHS + [pathlib.Path("rel/p.txt")] + existing + [pathlib.Path(x) for x in existing]:
+            md = dt.FileMetadataInterface()
+            F = Failures()
+            ok, _ = call(F, "populate_from_path", md.populate_from_path, p)
+            check_file_metadata(F, "FileMetadataInterface", md, p)
+            if F:
+                shown = str(p).replace(real, "<tmp>") if p is not None else None
+                return {"reproduced": True, "target": "data_types.py::FileMetadataInterface.populate_from_path",
+                        "inputs": {"path": shown, "exists": p is not None and os.path.lexists(str(p)), "is_symlink": p is not None and os.path.islink(str(p)),
+                                   "layout": "<tmp>/inbox/report.docx -> <tmp>/store/deep/blob.dat ; <tmp>/shortcut -> <tmp>/store/deep"},
+                        "expected": "name / suffix of the path ARGUMENT; path and folder: the argument's or their resolved form; all None without path",
+                        "observed": F[0]["detail"].replace(real, "<tmp>")}
+    return {"reproduced": False, "note": f"{len(PATHS) + 1 + 2 * len(existing)} path arguments (incl. existing files and symlinks): metadata derived from the path"}
 
 
 def find_accessor(cls_name, meth):
@@ -718,12 +790,18 @@ def find(req):
         r = find_damaged_member(ob)
         if r["reproduced"]:
             return r
+        rb = find_blip(ob)
+        if rb["reproduced"]:
+            return rb
         cls = ob.split("#")[1].split("-")[0]
         s = sweep(kinds=("image-number",), cls=cls)
         if s:
             return {"reproduced": True, "target": ob, "inputs": {"file": s[0]["file"]}, "expected": "image number >= 1", "observed": f"{s[0]['where']}: {s[0]['detail']}"}
         return r
     if "size_bytes-is-len-of-payload" in ob or "/field-store#" in ob:
+        r = find_blip(ob)
+        if r["reproduced"]:
+            return r
         cls = ob.split("#")[1].split("-")[0] if "size_bytes" in ob else None
         s = sweep(kinds=("image-size", "bytes", "image-number"), cls=cls)
         if s:
